@@ -247,8 +247,8 @@ fn run_once(t: &Tmpl, mag: i64) -> Run {
                 }
             }
         }
-        k if k.starts_with("file:") => {
-            let ext = &k[5..];
+        k if k.starts_with("file:") || k.starts_with("textfile:") => {
+            let ext = k.split_once(':').map(|x| x.1).unwrap_or("ans");
             let bound = FILE_BOUND_PER_BYTE * (bytes.len() as u64 + 1);
             let name = std::path::PathBuf::from(format!("x.{ext}"));
             let (out, m) = guarded(
@@ -295,6 +295,9 @@ pub struct C03 {
     n_csi: u64,
     n_modes: u64,
     n_special: u64,
+    n_textfile: u64,
+    n_filenum: u64,
+    num_runs: Vec<(usize, usize, usize)>,
     specials: Vec<Tmpl>,
     csi_full: u64,
 }
@@ -547,7 +550,10 @@ fn analyse(t: &Tmpl, runs: &[(i64, Run)]) -> Vec<Finding> {
         }
         // run-length formats legitimately expand a 4-byte record to 65535 cells of 16 bytes
         let per_byte: u64 = if t.kind.starts_with("load|") || t.kind.starts_with("file:") { 262_144 } else { 4096 };
-        let abound = ALLOC_BOUND + per_byte * r.n as u64 + macro_allowance(t, r.n) / (2 * t.w as u64 * t.h as u64 + 8) * (16 * t.w as u64 + 64);
+        // a file buffer is not clamped to a screen: a picture may have as many rows as SAUCE / the binary formats can declare
+        // (16 bits), each allocated at the buffer width; "no gigabytes" is the statement's own bound there
+        let file_rows: u64 = if t.kind.starts_with("textfile:") || t.kind.starts_with("load|buf|") { 448 << 20 } else { 0 };
+        let abound = ALLOC_BOUND + file_rows + per_byte * r.n as u64 + macro_allowance(t, r.n) / (2 * t.w as u64 * t.h as u64 + 8) * (16 * t.w as u64 + 64);
         if r.peak > abound {
             out.push(Finding {
                 key: format!("alloc|{fam}"),
@@ -618,10 +624,40 @@ impl C03 {
             (self.csi_tmpl(i % per_mode, 1 + (i / per_mode) as u8), "csi-table-modes")
         } else if k < self.n_csi + self.n_modes + self.n_special {
             (self.specials[((k - self.n_csi - self.n_modes) % self.specials.len() as u64) as usize].clone(), "special")
+        } else if k < self.n_csi + self.n_modes + self.n_special + self.n_textfile {
+            // the CSI table again, as the content of an .ans *file*: a file buffer has no screen to clamp the cursor to
+            // (pictures may be longer than the screen), so positioning functions meet other limits than in a terminal
+            let i = k - self.n_csi - self.n_modes - self.n_special;
+            let with_content = i % 2 == 1;
+            let mut t = self.csi_tmpl((i / 2) * 9, 0);
+            t.kind = "textfile:ans".into();
+            t.family = format!("file {}{}", t.family, if with_content { " after content" } else { "" });
+            t.screen = 0;
+            if with_content {
+                t.parts.insert(0, Part::L(b"first line\r\nsecond line\r\n\x1b[1;31mred".to_vec()));
+            }
+            (t, "csi-table-file")
+        } else if k < self.n_csi + self.n_modes + self.n_special + self.n_textfile + self.n_filenum {
+            // every decimal number written in a seed file (palette colour counts and components, CSI parameters of ANSI
+            // files, PCBoard / Renegade codes) becomes a numeric slot
+            let (si, a, b) = self.num_runs[(k - self.n_csi - self.n_modes - self.n_special - self.n_textfile) as usize];
+            let seed = &self.seeds[si];
+            (
+                Tmpl {
+                    family: format!("file-number {} ({})", seed.ext, seed.api),
+                    kind: format!("load|{}|{}", seed.api, seed.ext),
+                    emu: String::new(),
+                    w: 80,
+                    h: 25,
+                    screen: 0,
+                    parts: vec![Part::L(seed.bytes[..a].to_vec()), Part::B, Part::L(seed.bytes[b..].to_vec())],
+                },
+                "file-number",
+            )
         } else {
             // header-field extremes of every seed file: (seed, offset 0..64, width, value)
             let full = self.seeds.len() as u64 * 64 * 3 * 6;
-            let i = k - self.n_csi - self.n_modes - self.n_special;
+            let i = k - self.n_csi - self.n_modes - self.n_special - self.n_textfile - self.n_filenum;
             let mut r = if self.n_files >= full { i } else { crate::rng::mix(ctx.seed ^ 0xF11E, i) % full };
             let val: u32 = [0u32, 1, 0x7FFF, 0xFFFF, 0x7FFF_FFFF, 0xFFFF_FFFF][(r % 6) as usize];
             r /= 6;
@@ -664,7 +700,18 @@ impl C03 {
             vec![0]
         };
         for mag in mags {
-            let r = run_once(t, mag);
+            let mut r = run_once(t, mag);
+            // the CPU clock is the only monitor here that depends on the machine: a reading over the limit counts only if two
+            // immediate repetitions of the same run are over the limit too (the smallest reading is kept)
+            if r.cpu_ms > 2000 {
+                ctx.count("cpu_clock_readings_over_limit_repeated", 1);
+                for _ in 0..2 {
+                    let again = run_once(t, mag);
+                    if again.cpu_ms < r.cpu_ms {
+                        r.cpu_ms = again.cpu_ms;
+                    }
+                }
+            }
             ctx.count("runs", 1);
             ctx.count("ticks_observed", r.ticks);
             ctx.max("max_ticks_one_run", r.ticks);
@@ -705,7 +752,7 @@ impl Prop for C03 {
         "C03"
     }
     fn rule(&self) -> &'static str {
-        "a case is a template with numeric slots, executed with every slot at max(W,H)+1, 2^16, 10^6 and 2^31-1 on the real engine with the work counter (hook H1), the counting allocator and the nesting guard (H2) armed. Oracles: ticks <= 16(n+1)WH*max(W,H) for streams (64*65536*(n+1) for fonts/files, 4096(n+1) for sixel), peak live allocation <= 64MiB+4096n, nesting <= 16, cpu <= 2s, and saturation: ticks/peak at a larger magnitude <= 2x those at the smaller one. Templates: the complete CSI table (63 finals x 8 intermediates x parameter vectors of length 0..=6 over {0,1,size,BIG}) x 3 sizes x 3 prepared screens (quick: lengths <=3 complete + sample), the same table with top/bottom margins set and with top/bottom + left/right margins + origin mode set (parameter vectors of length <=2 quick / <=4 thorough), margins/rectangles/tab/colour functions, DCS macro definitions (text, hex repeat groups, self/mutual recursion with fan-out 1..=16, doubling chains), sixel raster/repeat headers (through the terminal and directly), Avatar repeat, CTerm:Font / PSF1 / PSF2 header fields, Tundra position records (big-endian row / column). distinct_nontrivial = distinct (family, screen, size, log2 tick profile over the magnitudes) fingerprints"
+        "a case is a template with numeric slots, executed with every slot at max(W,H)+1, 2^16, 10^6 and 2^31-1 on the real engine with the work counter (hook H1), the counting allocator and the nesting guard (H2) armed. Oracles: ticks <= 16(n+1)WH*max(W,H) for streams (64*65536*(n+1) for fonts/files, 4096(n+1) for sixel), peak live allocation <= 64MiB+4096n (512MiB for picture files: a file buffer may hold 65535 rows), nesting <= 16, cpu <= 2s, and saturation: ticks/peak at a larger magnitude <= 2x those at the smaller one. Templates: the complete CSI table (63 finals x 8 intermediates x parameter vectors of length 0..=6 over {0,1,size,BIG}) x 3 sizes x 3 prepared screens (quick: lengths <=3 complete + sample), the same table with top/bottom margins set and with top/bottom + left/right margins + origin mode set (parameter vectors of length <=2 quick / <=4 thorough), the same table (parameter vectors of length <=2 quick / <=3 thorough) as the content of an .ans file loaded with Buffer::from_bytes (a file buffer does not clamp the cursor to a screen), margins/rectangles/tab/colour functions, DCS macro definitions (text, hex repeat groups, self/mutual recursion with fan-out 1..=16, doubling chains), sixel raster/repeat headers (through the terminal and directly), Avatar repeat, CTerm:Font / PSF1 / PSF2 header fields, Tundra position records (big-endian row / column), every decimal number written in a text seed file of the loader corpus (palette files: counts and components; ans / pcb / an1 / asc: CSI parameters and colour codes; up to 150 per seed). distinct_nontrivial = distinct (family, screen, size, log2 tick profile over the magnitudes) fingerprints"
     }
     fn meta(&self, _ctx: &Ctx) -> Value {
         json!({"floor_evaluations": 5000, "floor_distinct": 300, "watchdog_s": 60, "watchdog_is_violation": true, "plain_pass": "quick",
@@ -719,10 +766,21 @@ impl Prop for C03 {
         self.n_csi = ctx.tier.pick(small + 60_000, self.csi_full);
         self.n_modes = 2 * 3 * 3 * 63 * 8 * vec_count(ctx.tier.pick(2, 4));
         self.n_special = self.specials.len() as u64;
+        self.n_textfile = 2 * 63 * 8 * vec_count(ctx.tier.pick(2, 3));
         self.seeds = crate::files::build_corpus();
+        // only where a digit run is a number: the text formats (in a binary file a byte that happens to be an ASCII digit is
+        // data, and replacing it by a longer string changes the rest of the file)
+        self.num_runs = crate::files::decimal_runs(&self.seeds)
+            .into_iter()
+            .filter(|(si, _, _)| {
+                let s = &self.seeds[*si];
+                s.api.starts_with("pal") || (s.api == "buf" && matches!(s.ext.as_str(), "ans" | "pcb" | "an1" | "asc"))
+            })
+            .collect();
+        self.n_filenum = self.num_runs.len() as u64;
         let full = self.seeds.len() as u64 * 64 * 3 * 6;
         self.n_files = ctx.tier.pick(20_000.min(full), full);
-        self.n_csi + self.n_modes + self.n_special + self.n_files
+        self.n_csi + self.n_modes + self.n_special + self.n_textfile + self.n_filenum + self.n_files
     }
     fn run_case(&mut self, ctx: &mut Ctx, k: u64) {
         let (t, class) = self.tmpl_for(ctx, k);
